@@ -44,7 +44,7 @@ ASSUMPTIONS = [
     "neutral: the row number passed to check_row by a writer; leading blanks of the value passed to validated_value "
     "for fixed data (trailing blanks must be gone, as documented); native versus text values in the row map "
     "(compared as stripped text)",
-    "sound inputs only: header rows given to a fixed writer fit the widths; too-long cells contain no blanks; in "
+    "sound inputs only: header rows given to a fixed writer fit the widths; too-long cells contain no blanks except the 'too long only by leading blanks' kind given to fixed writers; in "
     "fixed data two cells of a column that are equal after stripping are spelled identically (so IsUnique is "
     "unambiguous); Integer cells come from a table of clear verdicts (0, 7, 42 accepted; -1, 100, x rejected)",
     "neutral: whether the end-of-data verdicts and the cleanup happen inside close() or already when the rows are "
@@ -157,6 +157,8 @@ def _bad_kinds(field, fmt, api, allowed):
         lows = [lo for lo, _ in items]
         if None not in highs and (fmt == "delimited" or api == "writer"):
             kinds.append("long")
+        if fmt == "fixed" and api == "writer":
+            kinds.append("longblank")  # too long only because of leading blanks: the guard sees the raw cell
         if fmt == "delimited":
             if None not in lows and min(lows) >= 2:
                 kinds.append("short")
@@ -183,6 +185,9 @@ def _draw_cell(draw, field, kind, fmt, allowed):
         return " " * (draw(st.integers(1, width)) if width is not None else draw(st.integers(1, 2)))
     if kind == "long":
         return filler * (max(hi for _, hi in field["items"]) + 1)
+    if kind == "longblank":
+        cell = draw(st.sampled_from(field["pool"]))
+        return " " * (width - len(cell.strip(" ")) + draw(st.integers(1, 2))) + cell.strip(" ")
     if kind == "short":
         return filler * (min(lo for lo, _ in field["items"]) - 1)
     if kind == "gap":
@@ -213,8 +218,9 @@ def _draw_row(draw, case, api, as_header):
         kind = "fine"
         if column in bad_columns:
             kinds = _bad_kinds(field, fmt, api, case["allowed"])
-            if as_header and fmt == "fixed" and "long" in kinds:
-                kinds.remove("long")  # a fixed writer cannot represent it (sound inputs only)
+            if as_header and fmt == "fixed":
+                # a fixed writer cannot represent over-long header cells (sound inputs only)
+                kinds = [k for k in kinds if k not in ("long", "longblank")]
             kind = draw(st.sampled_from(kinds))
         row.append(_draw_cell(draw, field, kind, fmt, case["allowed"]))
     ragged_ok = (fmt == "delimited") if api != "writer" else (not as_header or fmt == "delimited")
